@@ -115,7 +115,7 @@ CHECKS = {
             'DESIGN.md 5.C06'),
     'C07': ('E-conc', 'model_checking',
             'stateless exploration of ALL transaction-level interleavings of concurrent requests on the real service, with state matching; differential serial oracle',
-            'Start states with nearly-full inventories x pairs (thorough: all pairs of 10 operations in 4 states + 16 triples, '
+            'Start states with nearly-full inventories x pairs (thorough: all pairs of 13 operations in 4 states, two pairs from a database without project/user rows, + 16 triples, '
             'preemption bound 2) of allocation claims racing for the same inventory, multi-provider claims, POST batches and '
             'generation-guarded inventory/trait/aggregate updates x all interleavings; for every complete schedule class there '
             'must be a serial order of the successful requests, executed by the implementation itself on the same snapshot, in '
@@ -173,7 +173,7 @@ CHECKS = {
             'All histories up to depth 2 (quick) / 3 (thorough) from three start states (populated, in use, providers still at generation 0) over an alphabet '
             'containing every write path, their stale-generation variants and every read route; the concrete '
             'pre/post generation columns are compared on every transition and the generation echoed by every '
-            'read is compared with the stored one in every state. Second part (E-conc): all interleavings of 27 pairs (rename / re-parent, which carry no generation, against every bumping write; bumping writes against each other): no generation ever decreases between transaction begins, reported generations are reached, winners equal a serial order.',
+            'read is compared with the stored one in every state. Second part (E-conc): all interleavings of 28 pairs (rename / re-parent, which carry no generation, against every bumping write; bumping writes against each other): no generation ever decreases between transaction begins, reported generations are reached, winners equal a serial order.',
             'depth-bounded small scope',
             'DESIGN.md 5.C10'),
     'C12': ('E-seq', 'model_checking',
